@@ -45,14 +45,17 @@ Den(c, p, method) ==
 ShapeHop(s, t) == LET n == Norm(s) IN t \in {n \o <<SLASH>>, MergeSl(n), MergeSl(n) \o <<SLASH>>}
 HopKind(h, i) == IF ShapeHop(h[i].path, h[i + 1].path) THEN "shape" ELSE "canon"
 
+\* The script root may be spelled as it is (what the router does for the plain roots of the documentation)
+\* or percent-encoded (the correct URI spelling of a root with non-ASCII characters, spaces, ...): both denote it.
 UrlClause(c, ln, h, i) ==
   LET u == SplitUrl(h[i].r.url)
       root == Root(c.bind.script)
+      roots == {root, Quote(root)}
       qt == QueryText(ln.q)
-  IN IF ~u.ok \/ u.scheme # c.bind.scheme \/ u.host # HostOf(c.bind) \/ ~IsPrefixOf(root, u.path) THEN "OnBoundHost"
+  IN IF ~u.ok \/ u.scheme # c.bind.scheme \/ u.host # HostOf(c.bind) \/ ~\E rt \in roots : IsPrefixOf(rt, u.path) THEN "OnBoundHost"
      ELSE IF ~((qt = <<>> /\ ~u.hasq) \/ (qt # <<>> /\ u.hasq /\ u.query = qt)) THEN "QueryPreserved"
      ELSE IF i = Len(h) THEN "Converges"
-     ELSE IF UrlPathFor(root, h[i + 1].path) # u.path THEN "Delivery"
+     ELSE IF ~\E rt \in roots : UrlPathFor(rt, h[i + 1].path) = u.path THEN "Delivery"
      ELSE "ok"
 
 RECURSIVE UrlClauses(_, _, _, _)
